@@ -1,4 +1,4 @@
-\* x32
+\* spec -> code export of every final graph
 SPECIFICATION Spec
 CONSTANTS
   Cand <- Cand3
